@@ -524,7 +524,13 @@ def work(item):
     have_plaq = not any(isinstance(x, dict) for x in vals0)
     if m is not None and m["hyp"] is False:
         out["kmis"].append(f"{variant}: hypothesis plaq_list_ok of the plaquette-table theorems is false on the model's plaquette list")
-    R = full_report(lat0, have_plaq)
+    try:
+        R = full_report(lat0, have_plaq)
+    except Exception as e:      # a table or a query helper raised on a valid lattice
+        import traceback
+        out["violations"].append(("table-or-query-raises", f"{variant}: {type(e).__name__}: {e} @ {traceback.format_exc().strip().splitlines()[-3].strip()[:120]}"))
+        out["stats"] = {"hist": n_hist, "coord": [], "npl": 0, "nV": len(pos), "nE": len(edges), "iso_last": False, "first": {}}
+        return out
     for key, what in spec_tables(P, S, edges, crossing, vals0, R, tolv):
         out["violations"].append((key, f"{variant}: {what}"))
     bm = beta_margin(P, edges, crossing, S)
@@ -537,6 +543,20 @@ def work(item):
                     "first": {"adjacent_edges[0]": R["adj"][0] if R["adj"] else None, "coordination": R["coord"][:8],
                               "edges.adjacent_plaquettes[:3]": vals0[2][1:4] if not isinstance(vals0[2], dict) else None}}
     return out
+
+
+def work_safe(item):
+    """work(); an exception escaping the implementation (constructor, pickling, a table) on a valid lattice is
+    reported as a violation with that lattice as the replay instead of aborting the run"""
+    try:
+        return work(item)
+    except Exception as e:
+        import traceback
+        tb = traceback.format_exc().strip().splitlines()
+        site = [l.strip() for l in tb if l.strip().startswith("File")][-1][:160]
+        pos, edges, _ = item["arr_v"]
+        return {"violations": [("implementation-raises", f"{item['variant']}: {type(e).__name__}: {e} @ {site}")], "kmis": [], "skip": None,
+                "stats": {"hist": 0, "coord": [], "npl": 0, "nV": len(pos), "nE": len(edges), "iso_last": False, "first": {}}}
 
 
 def prep(args):
@@ -608,7 +628,7 @@ def evaluate(ctx, cases, label, n_full=60, force_full=False):
         it["model"] = parse_model(o, it["S"])
         if "error" in it["model"]:
             raise RuntimeError(f"driver error {it['model']['error']} on {it['case']}")
-    results = pool_map(work, items)
+    results = pool_map(work_safe, items)
     cd = res.extra.setdefault("coordination_number_histogram", {})
     for it, r in zip(items, results):
         c = it["case"]
